@@ -291,23 +291,18 @@ def _analyse_main(ctx: Ctx, m: pf.Module, top_env: Dict[str, Any]) -> None:
             # who creates the destination
             mpcs = [x.stream for x in ex.events if x.kind == 'opened' and x.stream.kind == 'mpc']
             ctx.need(bool(mpcs), f'{q} [{case}]: no multi_part_create on the multi-part path')
-            consm = f'{F}::{q}::multi_part_create(destfile, n_parts) [{case}]'
+            consm = f'{F}::{q}::multi_part_create(destfile, ..) [{case}]'
             okm = True
             for mp in mpcs:
                 if not _is_role(mp.dest, 'destfile'):
                     okm = False
-                    ctx.bad('R3', consm, f'the part creator is created for `{mp.dest!r}`, not for the destination file', m.path, g.node.lineno)
+                    ctx.bad('R3', consm, f'the part creator is created for {_vt(mp.dest)}, not for the destination file', m.path, g.node.lineno)
                 elif not isinstance(mp.n, Poly):
                     raise AnalysisError(f'{q} [{case}]: num_parts is not an integer expression')
-                elif ex.decide('==', mp.n, N) is not True:
-                    pt = refute(ex, '==', mp.n, N)
-                    if pt is None:
-                        raise Undecided(f'{q} [{case}]: cannot compare num_parts {ex.inst(mp.n)!r} with the enumerated {ex.inst(N)!r}')
-                    okm = False
-                    ctx.bad('R3', consm, f'for {_pt_text(ex, pt)} multi_part_create is told {ex.inst(mp.n).at(pt)} parts but parts 0..{ex.inst(N).at(pt) - 1} are written: '
-                            'create_part rejects the part numbers beyond the announced count (AssertionError) / parts are missing', m.path, g.node.lineno)
             if okm:
-                ctx.ok('R3', consm, {'num_parts': repr(ex.inst(N))})
+                ctx.ok('R3', consm, {'num_parts': [repr(ex.inst(mp.n)) for mp in mpcs], 'parts_enumerated': repr(ex.inst(N))})
+            consn = f'{F}::{q}::part numbers lie within the announced count [{case}]'
+            range_problems: List[str] = []
             # the three kinds of part
             base0 = dict(ex.sub)
             problems: List[str] = []
@@ -331,22 +326,27 @@ def _analyse_main(ctx: Ctx, m: pf.Module, top_env: Dict[str, Any]) -> None:
                         pt = refute(exi, '>=', number, ZERO, guards) or refute(exi, '<', number, mp.n, guards)
                         if pt is None:
                             raise Undecided(f'{q} [{case}; {kd}]: cannot place part number {exi.inst(number)!r} in 0..{exi.inst(mp.n)!r}')
-                        problems.append(f'{kd}: for {_pt_text(exi, pt)} part index {exi.inst(i).at(pt)} is created as part number {exi.inst(number).at(pt)} of '
-                                        f'{exi.inst(mp.n).at(pt)}: outside the announced range')
+                        range_problems.append(f'{kd}: for {_pt_text(exi, pt)} part index {exi.inst(i).at(pt)} is created as part number {exi.inst(number).at(pt)} while '
+                                              f'multi_part_create was told {exi.inst(mp.n).at(pt)} parts: create_part rejects it (AssertionError), the part is never written')
                 if nxt is None:
                     want, wtext = SIZE, 'the end of the file'
                 else:
                     act2 = _run_closure(m, g.closure, g.env, base, nxt, f'{q}.f [{case}; part after {kd}]')
                     want, wtext = _subst_formals(part.start, act2, part.int_params), 'the start of the next part'  # type: ignore[arg-type]
-                if exi.decide('==', start + sz, want) is not True:
-                    pt = refute(exi, '==', start + sz, want, guards)
-                    if pt is None:
-                        if exi.decide('<', i, ZERO) is None and refute(exi, '>=', i, ZERO) is not None and exi.decide('==', start + sz, want) is None:
-                            raise Undecided(f'{q} [{case}; {kd}]: cannot compare end of part {exi.inst(start + sz)!r} with {exi.inst(want)!r}')
+                end = start + sz
+                # no gap before what follows; nothing read beyond the end of the source (an overlap inside the file rewrites identical bytes: harmless,
+                # because source offset = destination offset)
+                for op, rhs, rtext, verdict in (('>=', want, wtext, 'those bytes are never copied'),
+                                                ('<=', SIZE, 'the end of the file', 'the part reads beyond the end of the source: UnexpectedEOFError')):
+                    if exi.decide(op, end, rhs) is True:
                         continue
-                    a, b, c = exi.inst(start).at(pt), exi.inst(start + sz).at(pt), exi.inst(want).at(pt)
-                    problems.append(f'{kd}: for {_pt_text(exi, pt)} part {exi.inst(i).at(pt)} of {exi.inst(N).at(pt)} copies bytes [{a}, {b}) but {wtext} is {c}: '
-                                    + ('bytes are never copied' if b < c else 'bytes overlap / lie beyond the end of the source (UnexpectedEOFError or a corrupted neighbour)'))
+                    pt = refute(exi, op, end, rhs, guards)
+                    if pt is None:
+                        raise Undecided(f'{q} [{case}; {kd}]: cannot decide end of part {exi.inst(end)!r} {op} {exi.inst(rhs)!r}')
+                    a, b, c = exi.inst(start).at(pt), exi.inst(end).at(pt), exi.inst(rhs).at(pt)
+                    problems.append(f'{kd}: for {_pt_text(exi, pt)} part {exi.inst(i).at(pt)} of {exi.inst(N).at(pt)} copies bytes [{a}, {b}) but {rtext} is {c}: {verdict}')
+                if exi.decide('>=', start, ZERO) is not True:
+                    raise Undecided(f'{q} [{case}; {kd}]: start offset {exi.inst(start)!r} not known to be non-negative')
                 facts[kd] = {'start': repr(exi.inst(start)), 'size': repr(exi.inst(sz))}
             # the first part starts at 0
             ex0 = Exec(m, fn, {}, base0, f'{q} [{case}; first part]')
@@ -358,6 +358,7 @@ def _analyse_main(ctx: Ctx, m: pf.Module, top_env: Dict[str, Any]) -> None:
                     if pt is None:
                         raise Undecided(f'{q} [{case}]: cannot decide that part 0 starts at offset 0 ({ex0.inst(s0)!r})')
                     problems.append(f'first part: for {_pt_text(ex0, pt)} part 0 starts at offset {ex0.inst(s0).at(pt)}: the first bytes are never copied')
+            ctx.check(not range_problems, 'R3', consn, '; '.join(range_problems[:2]), m.path, g.node.lineno)
             if problems:
                 ctx.bad('R1', cons, '; '.join(problems[:3]), m.path, g.node.lineno, extra=problems)
             else:
@@ -392,30 +393,43 @@ def _part_kinds(ex: Exec, N: Poly, label: str) -> List[Tuple[str, Poly, Optional
     return out
 
 
+def _vt(v: Any) -> str:
+    if isinstance(v, Op) and v.kind == 'role':
+        return {'srcfile': 'the source file', 'destfile': 'the destination file'}.get(v.name, f'the caller\'s `{v.name}`')
+    if isinstance(v, Op) and v.kind == 'mpc':
+        return f'a part creator for {_vt(v.dest)}'
+    if isinstance(v, Poly):
+        return f'the number {v!r}'
+    return f'`{v!r}`'
+
+
+def _once(ctx: Ctx, rule: str, cons: str, ok: bool, msg: str, path: str, line: int) -> None:
+    seen = ctx.__dict__.setdefault('_c22_seen', set())
+    if (rule, cons, ok) in seen:
+        return
+    seen.add((rule, cons, ok))
+    ctx.check(ok, rule, cons, msg, path, line)
+
+
 def _plumb_part(ctx: Ctx, m: pf.Module, act: Dict[str, Any], part: _Part, mpcs: List[Op], case: str, kd: str, g: Op, i: Poly, exi: Exec) -> bool:
     """The part copy is handed the source file and the part creator of this destination."""
     q = f'{SC}._copy_file_multi_part_main'
     ok = True
     if isinstance(part.src, Op) and part.src.kind == 'formal':
         got = act.get(part.src.name)
-        cons = f'{F}::{q}::part reads `srcfile` [{case}; {kd}]'
-        if not _is_role(got, 'srcfile'):
-            ok = False
-            ctx.bad('R3', cons, f'_copy_part reads from its parameter `{part.src.name}`, which receives `{got!r}` instead of the source file', m.path, g.node.lineno)
-        else:
-            ctx.ok('R3', cons)
+        cons = f'{F}::{q}::part reads `srcfile` [{case}]'
+        ok = _is_role(got, 'srcfile')
+        _once(ctx, 'R3', cons, ok, f'{kd}: _copy_part reads from its parameter `{part.src.name}`, which receives {_vt(got)} instead of the source file', m.path, g.node.lineno)
     else:
         raise AnalysisError(f'{q}: _copy_part reads from `{part.src!r}`, not from a parameter')
     if isinstance(part.pc, Op) and part.pc.kind == 'formal':
         got = act.get(part.pc.name)
-        cons = f'{F}::{q}::part writes through the part creator of `destfile` [{case}; {kd}]'
-        if not (isinstance(got, Op) and got.kind == 'mpc' and any(got.same(mp) for mp in mpcs) and _is_role(got.dest, 'destfile')):
-            if isinstance(got, Op) and got.kind == 'conflict':
-                raise AnalysisError(f'{q}: the part creator differs between the try body and its fallback')
-            ok = False
-            ctx.bad('R3', cons, f'_copy_part creates its part through `{got!r}`, not through the part creator made for the destination file', m.path, g.node.lineno)
-        else:
-            ctx.ok('R3', cons)
+        cons = f'{F}::{q}::part writes through the part creator of `destfile` [{case}]'
+        okp = isinstance(got, Op) and got.kind == 'mpc' and any(got.same(mp) for mp in mpcs) and _is_role(got.dest, 'destfile')
+        if not okp and isinstance(got, Op) and got.kind == 'conflict':
+            raise AnalysisError(f'{q}: the part creator differs between the try body and its fallback')
+        ok = ok and okp
+        _once(ctx, 'R3', cons, okp, f'{kd}: _copy_part creates its part through {_vt(got)}, not through the part creator made for the destination file', m.path, g.node.lineno)
     else:
         raise AnalysisError(f'{q}: _copy_part calls create_part on `{part.pc!r}`, not on a parameter')
     return ok
@@ -446,11 +460,11 @@ def _check_single(ctx: Ctx, m: pf.Module, inv: Op, case: str, done: bool) -> Non
         ctx.need(isinstance(srcs.start, Poly), f'{q}: source start offset not an integer')
         ctx.check(srcs.start.is_zero(), 'R3', f'{F}::{q}::reads from the start', f'the whole-file copy opens the source at offset {srcs.start!r}', m.path, srcs.node.lineno)
     for what, val, role in (('reads', srcs.src, 'srcfile'), ('creates', dst.dest, 'destfile')):
-        cons = f'{F}::{SC}._copy_file_multi_part_main::whole-file copy {what} `{role}` [{case}]'
+        cons = f'{F}::{SC}._copy_file_multi_part_main::whole-file copy {what} `{role}`'
         ctx.need(isinstance(val, Op) and val.kind == 'formal', f'{q}: {what} `{val!r}`, not a parameter')
         got = act.get(val.name)
-        ctx.check(_is_role(got, role), 'R3', cons, f'_copy_file {what} its parameter `{val.name}`, which receives `{got!r}` instead of {role}: '
-                  + ('the destination is read and the source overwritten' if isinstance(got, Op) and got.kind == 'role' else 'wrong file'), m.path, inv.node.lineno)
+        _once(ctx, 'R3', cons, _is_role(got, role), f'[{case}] _copy_file {what} its parameter `{val.name}`, which receives {_vt(got)} instead of {_vt(_role(role))}'
+              + (': the destination is read and the source overwritten' if isinstance(got, Op) and got.kind == 'role' else ''), m.path, inv.node.lineno)
 
 
 LOOP_TEXT = {
@@ -494,7 +508,7 @@ def _analyse_readexactly(ctx: Ctx) -> None:
         ctx.need(sink.how == 'append' and isinstance(sink.target, Op) and sink.target.kind == 'list', f'{q}: blocks are not collected in a local list')
         ctx.need(lp['n0'] == V(params[1]), f'{q}: the counter does not start at the requested count')
         rets = [r for r in ex.returned]
-        ctx.need(not (len(rets) == 1 and rets[0] is lp.get('read')), f'{q}: returns only the last block read - equal to all blocks only if one read always suffices, not decided')
+        ctx.need(not (len(rets) == 1 and isinstance(rets[0], Op) and rets[0].kind == 'loopvar'), f'{q}: returns only the last block read - equal to all blocks only if one read always suffices, not decided')
         ok = len(rets) == 1 and isinstance(rets[0], Op) and rets[0].kind == 'join' and rets[0].seq is sink.target \
             and isinstance(rets[0].sep, Op) and rets[0].sep.kind == 'const' and rets[0].sep.value == b''
         ctx.check(ok, 'R2', f'{ST}::{q}::returns all blocks', f'the function returns `{rets[0] if rets else None!r}`, not the concatenation b"".join(<all blocks read>): '
@@ -881,6 +895,8 @@ def _row_name(mode: str, dstate: str, dslash: bool, multi: bool, kinds: List[Tup
 
 def _fmt(o: Tuple[str, Any]) -> str:
     if o[0] == 'error':
+        if o[1] == 'Deadlock':
+            return 'never finishes (copy_as_file and copy_as_dir wait for each other at the barrier)'
         return f'raises {o[1]}'
     if o[0] == 'swallows':
         return f'passes return_exceptions={o[1]} down (errors would be swallowed)'
@@ -898,19 +914,21 @@ def _dest_table(ctx: Ctx) -> None:
                     for sslash in (False, True):
                         for sfile in (False, True):
                             for sdir in (False, True):
-                                kinds = [(SRC + ('/' if sslash else ''), sslash, sfile, sdir)]
-                                if multi:
-                                    kinds.append((SRC2, False, True, False))
-                                want = _expected(mode, dstate, dslash, multi, kinds)
-                                got = tab.run_row(mode, dstate, dslash, multi, kinds)
-                                n += 1
-                                if got != want:
-                                    diffs.append((_row_name(mode, dstate, dslash, multi, kinds), want, got))
+                                seconds = [None] if not multi else ([(True, False)] if ctx.tier != 'thorough' else [(True, False), (False, True), (False, False), (True, True)])
+                                for sec in seconds:
+                                    kinds = [(SRC + ('/' if sslash else ''), sslash, sfile, sdir)]
+                                    if sec is not None:
+                                        kinds.append((SRC2, False, sec[0], sec[1]))
+                                    want = _expected(mode, dstate, dslash, multi, kinds)
+                                    got = tab.run_row(mode, dstate, dslash, multi, kinds)
+                                    n += 1
+                                    if got != want:
+                                        diffs.append((_row_name(mode, dstate, dslash, multi, kinds), want, got))
             ctx.unit('decision_table_rows', n)
             cons = f'{F}::destination rules::treat_dest_as={mode}, {"several sources" if multi else "one source"}'
             if not diffs:
                 ctx.ok('R4', cons, {'rows': n})
-            for name, want, got in diffs[:4]:
+            for name, want, got in diffs[:2]:
                 ctx.bad('R4', f'{F}::destination rules::{name}', f'the code {_fmt(got)}; the documented rule is: {_fmt(want)} ({len(diffs)} of {n} rows of this group differ)',
                         tab.m.path, tab.m.func(f'{SC}._full_dest').lineno, extra=[d[0] for d in diffs[:20]])
 
@@ -1073,18 +1091,24 @@ def _awaited(ctx: Ctx, mods: Sequence[pf.Module]) -> None:
             nm = f.attr if isinstance(f, ast.Attribute) else (f.id if isinstance(f, ast.Name) else None)
             if nm not in names:
                 continue
-            if isinstance(f, ast.Attribute) and not (isinstance(f.value, ast.Name) and (f.value.id in ('self', 'copier', 'src_copier', 'Copier'))):
-                # a method of some other object that happens to share a name (e.g. router_fs.copy_part_size): not ours
-                if nm not in ('bounded_gather2', 'retry_transient_errors'):
-                    continue
             p = par.get(c)
+            encl = m.enclosing_func(c)
+            q = m.qualname(encl) if encl is not None else '<module>'
             ok = isinstance(p, ast.Await)
             if not ok and isinstance(p, ast.Call) and pf.dotted(p.func) in sched and c in p.args:
                 ok = True
             if not ok and isinstance(p, ast.Return):
                 ok = True  # returned to a caller that awaits it (checked at that call)
-            encl = m.enclosing_func(c)
-            q = m.qualname(encl) if encl is not None else '<module>'
+            if not ok and not isinstance(p, ast.Expr):
+                # bound to a name / collected in a list ...: followed only for the simple `x = f(); await x` shape, otherwise not decided
+                tgt = p.targets[0].id if isinstance(p, ast.Assign) and len(p.targets) == 1 and isinstance(p.targets[0], ast.Name) else None
+                used = tgt is not None and encl is not None and any(
+                    (isinstance(x, ast.Await) and isinstance(x.value, ast.Name) and x.value.id == tgt)
+                    or (isinstance(x, ast.Call) and pf.dotted(x.func) in sched and any(isinstance(a, ast.Name) and a.id == tgt for a in x.args))
+                    for x in ast.walk(encl))
+                if not used:
+                    raise AnalysisError(f'{m.rel}::{q}: cannot follow what happens to the coroutine created by `{pf.nsrc(c)[:80]}`')
+                ok = True
             n += 1
             ctx.check(ok, 'R5', f'{m.rel}::{q}::{pf.nsrc(f)}(...) is awaited', f'`{pf.nsrc(c)[:100]}` creates a coroutine that is never awaited: that part of the copy silently does not happen',
                       m.path, c.lineno)
@@ -1100,9 +1124,9 @@ def run(ctx: Ctx) -> None:
                        'interpreter against a file-system model, truth tables of the broad exception handlers, structural checks of the local open modes.')
     ctx.rule('R1', 'parts tile [0,size) for every case of size = q*part_size + rem; source offset = destination offset inside a part; part size positive', 8)
     ctx.rule('R2', 'copy loops: continue iff bytes remain, 1 <= request <= remaining, pass on what was read, decrease by what was passed on; EOF loop stops exactly at EOF', 15)
-    ctx.rule('R3', 'whole-file / multi-part paths read srcfile and create destfile with the enumerated part count; local open modes, seeks, truncation, __aexit__', 30)
+    ctx.rule('R3', 'whole-file / multi-part paths read srcfile and create destfile with the enumerated part count; local open modes, seeks, truncation, __aexit__', 27)
     ctx.rule('R4', 'destination-rule decision table equals the documented one on every row; make_transfer; local statfile/staturl classification', 10)
-    ctx.rule('R5', 'broad handlers re-raise when return_exceptions is false; the flag is handed down unchanged and left false by the tool; coroutines are awaited', 40)
+    ctx.rule('R5', 'broad handlers re-raise when return_exceptions is false; the flag is handed down unchanged and left false by the tool; coroutines are awaited', 47)
     ctx.assume('url_join / url_basename act as posixpath.join / basename on scheme-less local paths')
     ctx.assume('file-system model: statfile raises FileNotFoundError unless a file exists, recursive listfiles raises unless a directory exists, staturl answers file/dir or raises FileNotFoundError')
     ctx.assume('a blocking read(k>=1) of a regular file returns at least one byte before end of file; write(b) writes all of b')
